@@ -82,7 +82,14 @@ def _step(u, mode, dist):
     same_tensor(u, "step.current_carry", out["current_carry"], (B, 1),
                 lambda bb, _: pre["current_carry"].at(bb, 0) + ite(AND(pre["action"].at(bb) >= D, pre["action"].at(bb) < D + H), 1, 0)
                 - ite(pre["action"].at(bb) >= D + H, 1, 0), tags=("C01",))
-    from tvc.unit import sum_point_update
+    from tvc.unit import sum_point_update, divmod_hint
+
+    # (action + H) mod M by cases (lemma divmod.row at the arbitrary row of the lemma below), then used for every row
+    rw = z3.Int("step.mod-cases.g0")
+    arw = pre["action"].at(rw)
+    divmod_hint(u, arw + H, 0, M, arw + H)
+    divmod_hint(u, arw + H, 1, M, arw + H - M)
+    u.prove_forall("step.mod-cases", (B,), lambda r: (pre["action"].at(r) + H) % M == ite(pre["action"].at(r) + H < M, pre["action"].at(r) + H, pre["action"].at(r) + H - M), tags=("C01",))
 
     # the carried-orders count changes at exactly one order (the one picked up / delivered)
     c_pre, c_out = carried(pre, D, H), carried(out, D, H)
